@@ -15,6 +15,7 @@ names=${*:-chan_empty lost simbin pcopy raw tiff sbs mon filt close}
 for n in $names; do rm -f ./*.o; echo "=== $n"; SAN=
  case $n in
  chan_empty) clang $CF $H/chan_empty.c $V/runtime/channel.c $PLAT -o t -lpthread -ldl && ./t ;;
+ nineth) clang $CF $H/nineth.c $V/runtime/channel.c $PLAT -o t -lpthread -ldl && timeout 10 ./t 2>&1 | tail -4 ;;
  holdmove) clang $CF $H/holdmove.c $V/runtime/channel.c $PLAT -o t -lpthread -ldl && ./t 2>&1 | tail -2 ;;
  lost) clang $CF -c -Dcondition_variable_wait=hooked_wait $V/runtime/channel.c -o ch.o && clang $CF $H/lost.c $H/realwait.c ch.o $PLAT -o t -lpthread -ldl && ./t ;;
  simbin) SAN=-fsanitize=address; cc_objs $H/simbin.c $D/simcams/simulated.camera.c $D/simcams/3rdParty/pcg-c-basic-0.9/pcg_basic.c $PLAT $C/acquire-device-properties/device/props/components.c; clang++ -g -w -std=gnu++20 $SAN $INC -c $D/simcams/popcount.cpp $D/simcams/imfill.pattern.cpp && clang++ $SAN ./*.o -o t -lpthread -ldl -lm && ./t 2>&1 | head -12 ;;
